@@ -108,3 +108,9 @@ func verifPoint(name, arg string) {
 		time.Sleep(time.Duration(h.Sum64()%uint64(max+1)) * time.Microsecond)
 	}
 }
+
+// VerifMark records an event of the harness itself (e.g. "the call returned") in the same trace, so
+// that events of the observed code can be ordered against it.
+func VerifMark(name, arg string) {
+	verifPoint(name, arg)
+}
